@@ -1,6 +1,7 @@
 (* C18 — the command line tool reports outcomes faithfully (decision model;
    the weight of this property is in the correspondence with the real binary). *)
 From PV Require Import Base.Common Model.Cli.
+From PV Require Model.OutPath Proofs.OutPathProofs.
 
 (* flag, else environment, else config file, else default *)
 Theorem C18_backend_precedence : forall flag env config default,
@@ -43,5 +44,38 @@ Proof. reflexivity. Qed.
 Theorem C18_emit_writes_one_ll_per_module : forall n, ll_files_written true n = n /\ ll_files_written false n = 0.
 Proof. intros; split; reflexivity. Qed.
 
+(* "--out-dir D leaves a .pn.ll file with the module's IR for every module": where the file of a
+   module goes (Model/OutPath.v: PathBuf::push, then set_extension("pn.ll")).  For every module
+   given by a relative path whose file is named `<x>.pn`, in any sub-directory: the file is
+   D/<the module's directories>/<x>.pn.ll, and distinct modules get distinct files. *)
+Theorem C18_ll_file_under_out_dir : forall d m,
+  OutPath.is_pn_module m = true ->
+  exists dirs file,
+    OutPath.comps m = dirs ++ [file] /\
+    OutPath.absolute (OutPath.ll_path d m) = OutPath.absolute d /\
+    OutPath.comps (OutPath.ll_path d m) = OutPath.comps d ++ dirs ++ [file ++ [46; 108; 108]%N].
+Proof. exact OutPathProofs.ll_path_under_out_dir. Qed.
+
+Theorem C18_ll_files_distinct : forall d m1 m2,
+  OutPath.is_pn_module m1 = true -> OutPath.is_pn_module m2 = true ->
+  OutPath.ll_path d m1 = OutPath.ll_path d m2 -> m1 = m2.
+Proof. exact OutPathProofs.ll_path_injective. Qed.
+
+(* Outside that class the statement is false of the code - the two listed findings: an absolute
+   module path replaces D (D17), and names that differ only in the extension collide (D57). *)
+Theorem C18_absolute_module_path_refuted :
+  exists d m, OutPath.absolute m = true /\ OutPath.comps (OutPath.ll_path d m) = OutPath.set_ext_comps (OutPath.comps m) /\
+              ~ (exists rest, OutPath.comps (OutPath.ll_path d m) = OutPath.comps d ++ rest).
+Proof. exact OutPathProofs.absolute_module_escapes_refuted. Qed.
+
+Theorem C18_same_stem_refuted :
+  exists d m1 m2, OutPath.absolute m1 = false /\ OutPath.absolute m2 = false /\ m1 <> m2 /\
+                  OutPath.ll_path d m1 = OutPath.ll_path d m2.
+Proof. exact OutPathProofs.same_stem_collides_refuted. Qed.
+
 Print Assumptions C18_backend_precedence.
 Print Assumptions C18_exit_zero_iff_success.
+Print Assumptions C18_ll_file_under_out_dir.
+Print Assumptions C18_ll_files_distinct.
+Print Assumptions C18_absolute_module_path_refuted.
+Print Assumptions C18_same_stem_refuted.
